@@ -370,7 +370,7 @@ func GenCollectionObj(t *rapid.T, s StrSrc, depth int, item func() any) map[stri
 		m[itemsKey] = items
 	}
 	if maybe(t, "total", 50) {
-		m["totalItems"] = rapid.SampledFrom([]any{0, 1, 2, 7.0, 1e6}).Draw(t, "totalItems")
+		m["totalItems"] = rapid.SampledFrom([]any{0, 1, 2, 7.0, 1e6, 9999, 10000, 999999, 1e9, 1e12, 1e15, 1e18, 9.223372036854775807e18, 1.8446744073709551615e19, 1e19, 4294967296.0, 2147483648.0}).Draw(t, "totalItems")
 	}
 	if depth > 0 && maybe(t, "nextpage", 40) {
 		key := "next"
